@@ -57,6 +57,11 @@ type Extern struct {
 	Zero  map[string]string    `json:"zero"`  // Lean type -> zero value term
 	// "pkgpath.Name" -> Go field name -> Lean field name (fields of extern struct types that may be touched)
 	Fields map[string]map[string]string `json:"fields"`
+	// package (short name) -> the translated packages whose GENERATED types and functions it refers to directly
+	// (everything else it uses of another package is the hand-written stand-in above)
+	Uses map[string][]string `json:"uses"`
+	// "pkgpath.Name" of an extern type -> Lean test (with %s for the value) that stands for `== nil`
+	NilTest map[string]string `json:"nilTest"`
 }
 
 type ExternFn struct {
@@ -64,6 +69,7 @@ type ExternFn struct {
 	MutatesRecv bool   `json:"mutatesRecv"`
 	Pure        bool   `json:"pure"` // returns a plain value, not a Res
 	UsesRand    bool   `json:"usesRand"` // takes the random source first and returns it first
+	UsesPrims   bool   `json:"usesPrims"` // takes the primitives record P before everything else
 }
 
 type translator struct {
@@ -282,7 +288,7 @@ func (t *translator) leanType(ty types.Type) (string, error) {
 		case "crypto/cipher.BlockMode":
 			return "Go.Cbc", nil
 		}
-		if l, ok := t.extern.Types[key]; ok && (l == "" || obj.Pkg().Path() != t.curPkg) {
+		if l, ok := t.extern.Types[key]; ok && (l == "" || !t.genPkgs[obj.Pkg().Path()]) {
 			if l == "" {
 				return "", fmt.Errorf("type %s is not translated", key)
 			}
@@ -391,7 +397,7 @@ func (t *translator) zero(ty types.Type) (string, error) {
 			return "([] : Bytes)", nil
 		}
 		if lt == "Go.Mac" {
-			return "({} : Go.Mac)", nil
+			return "Go.Mac.nil", nil
 		}
 		if lt == "Nat" {
 			return "(0 : Nat)", nil
